@@ -36,7 +36,7 @@ def fetch_wrapper(ctx, callable_, fetch_on="other", loops=None):
     return f, owner, px.explore(f, setup)
 
 
-@rule("R20.1", ["C20"], "T-FUN", floor=12)
+@rule("R20.1", ["C20", "C04", "C11"], "T-FUN", floor=12)
 def r20_1(ctx):
     """Dispatch table of the proxy over {callable, not} x {caller on the owner's loop, on another loop} x {owner
     loop open, closed} x {coroutine function, plain function} x {plain result None, a value}: a non-callable
@@ -178,7 +178,8 @@ def r20_6(ctx):
         return Sym("caller_loop")
 
     models = [("asyncio.get_event_loop", new_loop), ("asyncio.get_running_loop", new_loop),
-              ("ThreadsafeProxy", lambda px_, t, a, k, fr: Obj(TypeRef("ThreadsafeProxy"), {"obj": a[0], "loop": a[1]}, tag=f"proxy({getattr(a[0], 'tag', a[0])})")),
+              ("ThreadsafeProxy", lambda px_, t, a, k, fr: Obj(TypeRef("ThreadsafeProxy"), {"obj": a[0], "loop": a[1] if len(a) > 1 else k.get("obj_loop")},
+                                                               tag=f"proxy({getattr(a[0], 'tag', a[0])})")),
               ("EventLoopThread", lambda px_, t, a, k, fr: Obj(TypeRef("EventLoopThread"), {}, tag="thread")),
               ("thread.start", Outcomes(OK(None))), ("thread.run_coroutine_threadsafe", Outcomes(OK((Sym("protocol"), Sym("done"))))),
               ("_connect", lambda px_, t, a, k, fr: Obj(TypeRef("coroutine"), {"args": tuple(a)}, tag="_connect(...)"))]
@@ -308,3 +309,47 @@ def r20_8(ctx):
         ok = (p.terminal == "return" and len(rct) == 1 and rct[0].args == (Sym("coro"), Sym("thread_loop")) and len(wf) == 1 and wf[0].args[:1] == (rct[0].extra,)
               and wf[0].kwargs.get("loop", wf[0].args[1] if len(wf[0].args) > 1 else None) == Sym("caller_loop") and p.value == wf[0].extra)
         ctx.require(ok, "run_coroutine_threadsafe", f"dispatch {[e.args for e in rct]!r}, wrap {[(e.args, e.kwargs) for e in wf]!r}, returns {p.value!r}", func=f, trace=p.trace())
+
+
+@rule("R20.9", ["C20", "C10"], "T-FUN", floor=3)
+def r20_9(ctx):
+    """What the serial side calls on the application through the proxy fits the proxy's contract: every method of EZSP that
+    Gateway invokes as ``self._application.<name>(...)`` (frame_received, enter_failed_state, connection_lost, ...) and that is a
+    plain (non-coroutine) method returns None on every path - a plain method reached across threads "must return nothing"; a value
+    (a status flag added for the callers on the same thread) makes the proxy raise TypeError on the application's loop instead
+    of completing the notification."""
+    repo = ctx.repo
+    gw = repo.cls("bellows.uart", "Gateway")
+    ez = repo.cls("bellows.ezsp", "EZSP")
+    names = set()
+    for m_node in [n for n in gw.node.body if isinstance(n, (ast.FunctionDef, ast.AsyncFunctionDef))]:
+        for n in ast.walk(m_node):
+            if isinstance(n, ast.Call) and isinstance(n.func, ast.Attribute) and text(n.func.value) == "self._application":
+                names.add(n.func.attr)
+    ctx.anchor(len(names) >= 3, f"Gateway calls the application through self._application ({sorted(names)})")
+    for name in sorted(names):
+        try:
+            f = ez.method(name)
+        except KeyError:
+            raise AnalysisError(f"Gateway calls self._application.{name}, which EZSP does not define")
+        if f.is_async:
+            ctx.ok(1, name)
+            continue
+        ctx.fn(f)
+        params = [a.arg for a in f.node.args.args[1:]]
+        px = PX(repo, inline=same_class(stop=("handle_callback",)), models=[("self._protocol", Outcomes(OK(None), RAISE("ValueError"))), ("*.is_set", lambda *a: True)])
+        cbs = {0: Sym("cb0"), 1: Sym("cb1")}
+        for ncb in (1, 2):
+            def setup():
+                me = self_obj(ez, {"_callbacks": {i: cbs[i] for i in range(ncb)}, "_gw": Obj(TypeRef("Gateway"), {}, tag="gw"),
+                                   "_protocol": Obj(TypeRef("Handler"), {}, tag="handler"), "_config": Sym("cfg")})
+                return me, {p_: (b"\x01\x02\x03\x04\x05" if p_ == "data" else Sym(p_)) for p_ in params}
+
+            for p in px.explore(f, setup):
+                ctx.paths += 1
+                if p.terminal != "return":
+                    continue
+                if isinstance(p.value, Sym):
+                    raise AnalysisError(f"EZSP.{name} returns {p.value!r}: whether that is None is outside the modelled subset")
+                ctx.require(p.value is None, f"returns-none:{name}", f"EZSP.{name} - a plain method the gateway calls through the cross-thread proxy - returns "
+                            f"{p.value!r} on some path; the proxy raises TypeError for any result other than None (use_thread=True)", func=f, trace=p.trace(10))
